@@ -25,13 +25,15 @@ class _GatePassed(Exception):
     pass
 
 
-def gate(itp, wd):
-    """gen_coords on a topology made of the written .itp; returns 'raised' (IOError of the connectivity gate), 'passed', or another text"""
+def gate_top(itps, molecules, wd):
+    """gen_coords on a topology that includes the given .itp files and lists `molecules` = [(name, count)...]; returns 'raised' (IOError of
+    the connectivity gate), 'passed' (reached the step after the gate), or another text"""
     import polyply.src.gen_coords as gc
     top = wd / "sys.top"
-    types = sorted({a["atype"] for a in lu.read_itp(itp)[0]})
+    types = sorted({a["atype"] for itp in itps for a in lu.read_itp(itp)[0]})
     top.write_text("[ defaults ]\n1 2 no 1.0 1.0\n[ atomtypes ]\n" + "".join("%s 10.0 0.0 A 0.3 1.0\n" % t for t in types)
-                   + '#include "%s"\n[ system ]\ntest\n[ molecules ]\nt 1\n' % itp)
+                   + "".join('#include "%s"\n' % itp for itp in itps) + "[ system ]\ntest\n[ molecules ]\n"
+                   + "".join("%s %d\n" % (name, count) for name, count in molecules))
     orig = gc.load_build_files
 
     def stop(*a, **k):
@@ -48,6 +50,90 @@ def gate(itp, wd):
     finally:
         gc.load_build_files = orig
     return "returned"
+
+
+def gate(itp, wd):
+    return gate_top([itp], [("t", 1)], wd)
+
+
+def _bonds_only(links):
+    return all(x["kind"] == "bonds" for l in links for x in l["inters"])
+
+
+def _multi_gate_chunk(arg):
+    tops, itps, wdname = arg
+    c.quiet()
+    wd = c.workdir(PROP, "gate_%s" % wdname)
+    bad = []
+    for t in tops:
+        mols = [(e["mol"], e["count"]) for e in t["top"]]
+        used = sorted({m for m, _ in mols})
+        got = gate_top([itps[m] for m in used], mols, wd)
+        want = "raised" if t["refuse"] else "passed"
+        if got != want:
+            bad.append((t, got, want))
+    return bad, len(tops)
+
+
+def multi_gate_stage(ck, res, dec, ffs, tier, rng):
+    """the gate over multi-molecule topologies: four generated molecules (two whose residue graph TLC calls connected, two disconnected)
+    combined as TLC's GateTops say (disconnected molecule first / in the middle / last, repeated types, counts 1-2)"""
+    tops = res.cases()
+    if len(tops) < 500 or not any(t["refuse"] for t in tops) or all(t["refuse"] for t in tops):
+        raise c.MachineryError("gate export: %d topologies" % len(tops))
+    wd = c.workdir(PROP, "gate_molecules")
+    want = {"c1": True, "c2": True, "d1": False, "d2": False}
+    itps, chosen = {}, {}
+    cands = sorted(i for i, d in dec.items() if d["input"]["n"] >= 3 and not d["expected"]["removed"] and len(d["expected"]["edges"]) > len(d["input"]["edges"])
+                   and _edges_are_written(ffs[d["input"]["ff"] - 1]["links"]) and _bonds_only(ffs[d["input"]["ff"] - 1]["links"]) and ffs[d["input"]["ff"] - 1]["links"])
+    rng.shuffle(cands)
+    for name, conn in sorted(want.items()):
+        for i in cands:
+            d = dec[i]
+            if d["expected"]["connected"] != conn or i in chosen.values():
+                continue
+            ff = ffs[d["input"]["ff"] - 1]
+            sub = c.workdir(PROP, "gate_molecules/%s" % name)
+            paths = lu.write_ff(sub, ff["blocks"], ff["links"], "ff", 0)
+            obs = lu.run_gen_params(d["input"], ff["blocks"], ff["links"], paths, sub)
+            if "exception" in obs:
+                continue
+            txt = open(obs["itp"]).read()
+            head, sep, rest = txt.partition("[ moleculetype ]")
+            lines = rest.split("\n")
+            for k, line in enumerate(lines):
+                if line.split() and not line.strip().startswith(";"):
+                    lines[k] = "%s 1" % name
+                    break
+            out = wd / ("%s.itp" % name)
+            out.write_text(head + sep + "\n".join(lines))
+            single = gate_top([str(out)], [(name, 1)], sub)
+            if single != ("passed" if conn else "raised"):
+                ck.violation({"kind": "gate", "input": d["input"], "ff": ff, "expected": {"connected": conn}, "observed": single},
+                             what="gen_coords on one generated molecule (residue graph %s): connectivity gate %s" % ("connected" if conn else "disconnected", single))
+            itps[name], chosen[name] = str(out), i
+            break
+    if len(itps) < 4:
+        raise c.MachineryError("gate stage: could not generate the four molecules (%s)" % sorted(itps))
+    pick = tops if tier == "thorough" or len(tops) <= 160 else rng.sample(tops, 160)
+    # the shapes named in the statement of the seed are always there: disconnected molecule first / in the middle / last, repeated types
+    must = [t for t in tops if [e["mol"] for e in t["top"]] in (["d1", "c1", "c2"], ["c1", "d1", "c2"], ["c1", "c2", "d1"], ["c1", "c1", "d1"], ["c1", "d1"], ["c1", "c2"])
+            and all(e["count"] == (2 if e["mol"] == "c1" else 1) for e in t["top"])]
+    pick = must + [t for t in pick if t not in must]
+    nbad = 0
+    for bad, n in c.pmap(_multi_gate_chunk, [(ch, itps, str(k)) for k, ch in enumerate(c.chunks(pick, c.NPROC))]):
+        ck.evaluations += n
+        ck.extra["multi_molecule_gate_runs"] = ck.extra.get("multi_molecule_gate_runs", 0) + n
+        for t, got, wanted in bad:
+            nbad += 1
+            ck.violation({"kind": "multi-molecule gate", "topology": t["top"], "molecules": {k: open(v).read() for k, v in itps.items()},
+                          "expected": wanted, "observed": got},
+                         what="gen_coords on [ molecules ] %s (c* connected, d* disconnected residue graph): connectivity gate %s, expected %s" % (
+                             " ".join("%s:%d" % (e["mol"], e["count"]) for e in t["top"]), got, wanted))
+    for t in pick:
+        if t["refuse"] and t["top"][0]["mol"].startswith("c"):
+            ck.nontrivial.add("gate:" + json.dumps(t["top"]))
+    ck.sample({"multi-molecule gate": {"molecules": pick[0]["top"], "must_refuse": pick[0]["refuse"]}})
 
 
 def _edges_are_written(links):
@@ -119,7 +205,7 @@ def _chunk(arg):
             obs = lu.run_gen_params(inp, ff["blocks"], ff["links"], paths, wd)
             diffs, known = check_missing(inp, exp, obs, ff["links"], True, ff["blocks"])
             # a reader of a topology joins atoms by bonds (constraints, virtual sites): the gate is asserted where links make bonds only
-            bonds_only = all(x["kind"] == "bonds" for l in ff["links"] for x in l["inters"])
+            bonds_only = _bonds_only(ff["links"])
             if not diffs and "exception" not in obs and _edges_are_written(ff["links"]) and bonds_only:
                 g = gate(obs["itp"], wd)
                 ngate += 1
@@ -162,6 +248,7 @@ def replay_family(ck, fam, res, tier, rng, n_proc, n_gp):
         if e["missing"] and len(e["missing"]) < len(case["input"]["edges"]):
             ck.nontrivial.add("%s:%d" % (fam, i))
     if fam == "M":
+        ck._gate_pool = (dec, ffs)
         mixed = [d for d in dec.values() if d["expected"]["missing"] and len(d["expected"]["missing"]) < len(d["input"]["edges"])]
         if mixed:
             m = mixed[len(mixed) // 2]
@@ -200,13 +287,15 @@ def run(tier):
                "I->S: seeded random cases with 5-7 residues through gen_params, warnings parsed; distinct = record with an applied link")
     ck.assumptions = ["the gate is asserted for disconnection at residue level only; atoms disconnected inside one residue are accepted by design",
                       "the cross-check against the written .itp is made for force fields whose edges all come from written interactions",
-                      "gen_coords is stopped right after the connectivity gate (load_build_files replaced by a sentinel)"]
+                      "gen_coords is stopped right after the connectivity gate (load_build_files replaced by a sentinel)",
+                      "multi-molecule topologies are composed of four generated molecules (two connected, two disconnected by TLC's verdict)"]
     sd = c.seed()
     rng = random.Random(sd + 10)
     ck.stage("TLC: models, sensitivity runs, exports")
     jobs = [("export_M", "MC_Links", "Lk_export_M.cfg", 4, {}), ("export_B", "MC_Links", "Lk_export_B.cfg", 3, {}), ("export_E", "MC_Links", "Lk_export_E.cfg", 2, {}),
             ("export_N", "MC_Links", "Lk_export_N.cfg", 3, {}), ("modelN", "MC_Links", "Lk_small_N.cfg", 2, {}),
             ("dev_OrderedPairs", "MC_Links", "Lk_dev_OrderedPairs.cfg", 1, {"check": False}),
+            ("gate", "MC_Links", "Lk_gate.cfg", 1, {}), ("dev_GateOnce", "MC_Links", "Lk_dev_GateOnce.cfg", 1, {"check": False}),
             ("missing", "MC_Links", "Lk_missing.cfg", 2, {}), ("modelM", "MC_Links", "Lk_small_M.cfg", 3, {}),
             ("devfams", "MC_Links", "Lk_devfams.cfg", 1, {"coverage": True}),
             ("dev_Degree", "MC_Links", "Lk_dev_Degree.cfg", 1, {"check": False}), ("dev_missing", "MC_Links", "Lk_missing_dev.cfg", 1, {"check": False})]
@@ -222,6 +311,8 @@ def run(tier):
         raise c.MachineryError("action FindMissing never taken")
     ck.model_must_hold(results["modelN"], "MissingIsExpected/BondXorMissing with node keys that are a permutation of the residue ids")
     ck.model_must_refute(results["dev_OrderedPairs"], "MissingIsExpected", "independent seed C10-2: joined residue pairs compared as ordered pairs")
+    ck.model_must_hold(results["gate"], "GateIsExpected: the gate refuses iff some molecule of the list is disconnected (584 topologies)")
+    ck.model_must_refute(results["dev_GateOnce"], "GateIsExpected", "independent seed2-C10-1: only the first molecule of the list is inspected")
     ck.model_must_refute(results["dev_Degree"], "MissingIsExpected", "degree filter compares the wrong way (m12), after link application")
     ck.model_must_refute(results["dev_missing"], "MissingIsExpected", "degree filter compares the wrong way (m12), arbitrary edge sets")
     quick = tier == "quick"
@@ -232,6 +323,9 @@ def run(tier):
         ck.model_must_hold(res, "export %s" % fam)
         replay_family(ck, fam, res, tier, rng, n_proc, n_gp)
         res.out = ""
+    ck.stage("gate over multi-molecule topologies")
+    multi_gate_stage(ck, results["gate"], ck._gate_pool[0], ck._gate_pool[1], tier, rng)
+    ck._gate_pool = None
     ck.stage("I->S: random cases through gen_params")
     nrec = 120 if quick else 1200
     seeds = [sd * 100003 + 50000 + k for k in range(nrec)]
@@ -260,6 +354,16 @@ def replay_case(path):
     doc = json.loads(open(path).read())
     case = doc["case"]
     c.quiet()
+    if case["kind"] == "multi-molecule gate":
+        wd = c.workdir(PROP, "replay_gate")
+        itps = {}
+        for k, txt in case["molecules"].items():
+            (wd / ("%s.itp" % k)).write_text(txt)
+            itps[k] = str(wd / ("%s.itp" % k))
+        mols = [(e["mol"], e["count"]) for e in case["topology"]]
+        got = gate_top([itps[m] for m in sorted({m for m, _ in mols})], mols, wd)
+        print("gate %s, expected %s" % (got, case["expected"]))
+        return 0 if got == case["expected"] else 1
     if case["kind"] == "S->I replay":
         bad, n, _ = _chunk((case["family"], [(0, {"input": dict(case["input"], ff=1), "expected": case["expected"]})], [case["ff"]], "one", case["mode"]))
         print("\n".join(bad[0][3]) if bad else "matches the expectation now")
